@@ -354,7 +354,7 @@ def gen_cases(tier, seed):
     # Server level: the name identifier an IdP puts into its responses over a sequence of logins, for every shape of NameIDPolicy an SP may send
     for k in range(6 if tier == "quick" else 40):
         cases.append({"id": "server-logins-%d" % k, "sig": ["server-logins", k], "kind": "server-logins", "k": k, "len": 40 if tier == "quick" else 300,
-                      "local_format": ["persistent", "persistent", "transient", "none"][k % 4]})
+                      "local_format": ["persistent", "persistent", "transient", "none", "no-policy-configured"][k % 5]})
     for k in range(4):
         cases.append({"id": "userid-equals-issued-text-%d" % k, "sig": ["userid-equals-issued-text", k], "kind": "adversarial-userid", "k": k})
     return cases
@@ -517,7 +517,7 @@ def run_server_logins(case, ctx, rng, counters, viols, sigs):
     sps = [fed.SP_EID, "https://sp-b.example.org/md"]
     pol = copy.deepcopy(fed.DEFAULT_POLICY)
     lf = case["local_format"]
-    if lf == "none":
+    if lf in ("none", "no-policy-configured"):
         del pol["default"]["nameid_format"]
     else:
         pol["default"]["nameid_format"] = PERS if lf == "persistent" else TRANS
@@ -525,6 +525,9 @@ def run_server_logins(case, ctx, rng, counters, viols, sigs):
     idc = fed.idp_conf(policy=pol)
     # (the same entity is an attribute authority too, with the same policy: attribute responses for a user go through the same store)
     idc["service"]["aa"] = {"endpoints": {"attribute_service": [("https://idp.example.org/aa/soap", "urn:oasis:names:tc:SAML:2.0:bindings:SOAP")]}, "policy": copy.deepcopy(pol)}
+    if lf == "no-policy-configured":
+        del idc["service"]["aa"]["policy"]
+        del idc["service"]["idp"]["policy"]
     idp = fed.make_idp(idc, mds)
     persistent = {}      # (user, sp qualifier) -> text
     owner = {}           # text -> (user, sp qualifier)
